@@ -336,6 +336,8 @@ class Check:
 
     def harness(self, sub, timeout=1500, extra_args=None):
         out_dir = self.dir
+        if self.tier == "thorough":
+            timeout = max(timeout, 10800)  # thorough sweeps take tens of minutes on a loaded machine; the limit only guards against a hang
         for p in glob.glob(os.path.join(out_dir, "cases_*.v")) + glob.glob(os.path.join(out_dir, "meta.json")):
             os.remove(p)
         cmd = [os.path.join(BIN, "vh"), sub, "-tier", self.tier, "-seed", str(self.seed), "-out", out_dir] + (extra_args or [])
